@@ -131,6 +131,10 @@ func runC05(res *lp.Result) {
 					}
 					if cs.comp != nil {
 						f.SetCompress(rng.Bool())
+						if (kind == "Options" || kind == "Ready") && i%2 == 0 {
+							// the flag set directly (SetCompress leaves these opcodes alone): the empty body travels compressed
+							f.Header.Flags = f.Header.Flags.Add(primitive.HeaderFlagCompressed)
+						}
 					}
 					id := fmt.Sprintf("v=%d kind=%s comp=%s seed=%d i=%d", v, kind, cs.name, *seed, i)
 					orig := f.DeepCopy()
@@ -147,6 +151,17 @@ func runC05(res *lp.Result) {
 					res.Count("compression/" + cs.name)
 					full, err := cs.codec.DecodeFrame(bytes.NewReader(all))
 					if err != nil {
+						// EncodeFrame and EncodeHeader+EncodeBody / ConvertToRawFrame+EncodeRawFrame must agree; when the full encoder's own
+						// bytes are rejected while the raw path's bytes decode, the two encoders differ
+						if rf, e2 := cs.codec.ConvertToRawFrame(orig.DeepCopy()); e2 == nil {
+							var rb bytes.Buffer
+							if e3 := cs.codec.EncodeRawFrame(rf, &rb); e3 == nil {
+								if _, e4 := cs.codec.DecodeFrame(bytes.NewReader(rb.Bytes())); e4 == nil && !bytes.Equal(rb.Bytes(), enc) {
+									viol("EncodeFrame and ConvertToRawFrame+EncodeRawFrame emit different bytes for the same frame, and only the latter decode: "+firstWords(err.Error()),
+										id+" bytes="+hx(enc), hx(enc), hx(rb.Bytes()))
+								}
+							}
+						}
 						continue
 					}
 					want := show.Frame(full)
